@@ -134,7 +134,7 @@ def sort_before_ordered(ctx):
         g = [c for c, pol in e.guards]
     # `ordered` is forced on the frame path
     asg = [e for e in events(fa, 'assign') if e.name == 'ordered']
-    ok3 = any(e.value == T.TRUE and any(_covers_frame_and_dict(c) and p for c, p in e.guards) for e in asg)
+    ok3 = any(e.value == T.TRUE and any(_covers_frame_and_dict(t) for t in e.nguards) for e in asg)
     ctx.check(ok3, R, 'ordered-forced', ctx.where(fa), found=[T.show(e.value) for e in asg], expected='ordered = True on the frame/dict path',
               reason='otherwise a frame would be iterated column-name-wise by the unordered path')
     # dispatch: create() under `ordered`, create_from_unordered under not ordered
@@ -150,11 +150,15 @@ def _is_ordered(c):
 
 
 def _covers_frame_and_dict(cond):
-    if cond[0] != 'call' or cond[1] != G('isinstance') or len(cond[2]) != 2:
-        return False
-    kinds = cond[2][1]
-    names = {T.show(x) for x in (kinds[1] if kinds[0] == 'tuple' else (kinds,))}
-    return cond[2][0] == V('pixels') and {'pd.DataFrame', 'dict'} <= names
+    """isinstance(pixels, DataFrame) or isinstance(pixels, dict) (in either spelling / order)."""
+    parts = cond[1] if cond[0] == 'or' else (cond,)
+    names = set()
+    for c in parts:
+        if c[0] != 'call' or c[1] != G('isinstance') or len(c[2]) != 2 or c[2][0] != V('pixels'):
+            return False
+        kinds = c[2][1]
+        names |= {T.show(x) for x in (kinds[1] if kinds[0] == 'tuple' else (kinds,))}
+    return {'pd.DataFrame', 'dict'} <= names
 
 
 def arg_of(callterm, pos, name):
